@@ -5,7 +5,7 @@
 -/
 import CspuzModel.Proofs.C15Roundtrip
 import CspuzModel.Proofs.C15Term
-import CspuzModel.Proofs.C15Rooms
+import CspuzModel.Proofs.C15ValuedRT
 import CspuzModel.Proofs.C15Puzzles
 namespace Cspuz.C15
 open Cspuz Cspuz.Ser
@@ -89,7 +89,9 @@ def statement_rooms : Prop :=
 theorem C15_rooms : statement_rooms := fun h w rooms skip allow hh hw hv =>
   rooms_roundtrip h w hh hw (borders_roundtrip h w) rooms hv skip allow
 
-/-- **ValuedRooms** (full strength, statement only unless proved): the values stay attached to the same rooms. -/
+/-- **ValuedRooms** (full strength): rooms and cells in any order; the decoded value has the rooms in canonical form and
+the values re-ordered along with their rooms (`canonValues`: the i-th canonical room keeps the value its room had);
+the value layer `Seq(value, #rooms)` is any well-formed productive term applied to data in its `Dom`. -/
 def statement_valued_rooms : Prop :=
   ∀ (h w : Nat) (v : Comb) (rooms : List (List (Nat × Nat))) (values : List PyVal) (skip allow : Bool),
     1 ≤ h → 1 ≤ w → ValidPartition h w rooms → values.length = rooms.length →
@@ -99,6 +101,10 @@ def statement_valued_rooms : Prop :=
     ∃ t, ser (.valuedRooms v skip allow) ⟨h, w⟩ [.tuple [roomsVal rooms, .list values]] 0 = .ok (1, t) ∧
       ∀ pre rest, de (.valuedRooms v skip allow) ⟨h, w⟩ (pre ++ t ++ rest) pre.length
         = .ok (t.length, [.tuple [roomsVal (canonRooms h w rooms), .list (canonValues h w rooms values)]])
+
+theorem C15_valued_rooms : statement_valued_rooms :=
+  fun h w v rooms values skip allow hh hw hv hl hwf hnr hg hs =>
+    valuedRooms_term_roundtrip h w v rooms values skip allow hh hw hv hl hwf hnr hg hs
 
 /-- **The regenerated puzzle combinators** are well-formed problem-level terms (so `C15_roundtrip` applies to the
 six without `Rooms`, and the `OneOf` alternatives of all nine are distinguishable by their leading character). -/
